@@ -377,6 +377,15 @@ class LTop(Component):
     elif how == "setitem-after":
       s.regs = [LReg()] + [None] * (n - 1)
       for i in range(1, n): s.regs[i] = LReg()
+    elif how == "append-spare":
+      # the late elements are not touched again by construct()
+      s.regs = [LReg() for _ in range(n)]
+      s.spare = [LReg()]
+      s.spare.append(LReg())
+    elif how == "setitem-spare":
+      s.regs = [LReg() for _ in range(n)]
+      s.spare = [Wire(8), None]
+      s.spare[1] = Wire(8)
     s.regs[0].in_ //= s.in_
     for i in range(1, n): s.regs[i].in_ //= s.regs[i - 1].out
     s.out //= s.regs[n - 1].out
@@ -389,7 +398,7 @@ def run_listbuild_case(sh, case):
   hook - the design is refused, or every object still has a name that evaluates back"""
   from vlib import specgen as G
   rng = sh.rng("listbuild", case)
-  how = rng.choice(["assign-complete", "plus-equal", "plus-equal", "plus-equal-wires", "append-after", "setitem-after"])
+  how = rng.choice(["assign-complete", "plus-equal", "plus-equal", "plus-equal-wires", "append-after", "setitem-after", "append-spare", "setitem-spare"])
   n = rng.randrange(2, 6)
   mod = G.load_source(LISTBUILD_SRC, "c14lb")
   try:
@@ -403,7 +412,7 @@ def run_listbuild_case(sh, case):
     sh.count("listbuild:" + how + ":elaborated"); sh.count("list_construction_designs")
     objs = top.get_all_object_filter(lambda x: True)
     comps = [o for o in objs if type(o).__name__ == "LReg"]
-    if len(comps) != n:
+    if len(comps) != n and "spare" not in how:
       sh.violation("hardware-object-of-a-list-is-missing-from-the-hierarchy", {"how": how, "n": n, "components_found": len(comps)}, case=("listbuild", case)); return
     for o in objs:
       r = repr(o); sh.count("objects_roundtripped")
